@@ -130,6 +130,44 @@ class StepCounter:
         return False
 
 
+class Failpoint:
+    """Source-free failpoint: raises `exc` at the `at`-th LINE event inside soupsieve's own code (at=None: only count).
+
+    The exception is raised from the sys.monitoring callback, i.e. it appears in the monitored code exactly where an
+    asynchronous exception (KeyboardInterrupt, MemoryError) could appear.  One shot: after firing it only counts."""
+
+    TOOL = 3
+
+    def __init__(self, at=None, exc=KeyboardInterrupt):
+        self.at = at
+        self.exc = exc
+        self.n = 0
+        self.fired = None
+
+    def __enter__(self):
+        mon = sys.monitoring
+        mon.use_tool_id(self.TOOL, 'verif-failpoint')
+        frag = os.sep + 'soupsieve' + os.sep
+        me = self
+
+        def cb(code, line):
+            if frag not in code.co_filename:
+                return mon.DISABLE
+            me.n += 1
+            if me.at is not None and me.n == me.at and me.fired is None:
+                me.fired = '%s:%s:%d' % (os.path.basename(code.co_filename), code.co_name, line)
+                raise me.exc('injected at ' + me.fired)
+        mon.register_callback(self.TOOL, mon.events.LINE, cb)
+        mon.set_events(self.TOOL, mon.events.LINE)
+        return self
+
+    def __exit__(self, *a):
+        sys.monitoring.set_events(self.TOOL, 0)
+        sys.monitoring.register_callback(self.TOOL, sys.monitoring.events.LINE, None)
+        sys.monitoring.free_tool_id(self.TOOL)
+        return False
+
+
 # ---------------------------------------------------------------------------------------------------------
 # Tree-mutation tripwire (C04, also used by C03/C08 drivers as a cheap side monitor)
 
